@@ -111,7 +111,7 @@ def judge(c, r, mo):
     M = [int(x) for x in mo[0]]; M = [M[i * n:(i + 1) * n] for i in range(n)]
     R = [int(x) for x in mo[1]]; R = [R[i * (n - 1):(i + 1) * (n - 1)] for i in range(n - 1)]
     if o["M"] != M: out.append({"what": "Laplacian entries %s, model %s" % (o["M"], M)})
-    if o["R"] != R or not o["Rkeys"]: out.append({"what": "reduced Laplacian (q=%d) %s, model %s" % (c["q"], o["R"], R)})
+    if o["R"] != R or not o["Rkeys"]: out.append({"what": "reduced Laplacian (q=%d) %s, model %s%s" % (c["q"], o["R"], R, "" if o["Rkeys"] else "; its row/column keys are not exactly the vertices other than q")})
     steps = " ".join(mo[2]).split("|")[:-1][n:]
     exp = []
     for st in steps:
@@ -184,6 +184,7 @@ def oracle(c, r):
     if "moves" in o and o["moves"] != exact: why.append("moves one at a time give %s" % o["moves"])
     keep = [v for v in range(n) if v != c["q"]]
     if o["R"] != [[L[a][b] for b in keep] for a in keep]: why.append("reduced matrix wrong")
+    if not o.get("Rkeys", True): why.append("the reduced matrix (q=%d) has a row or a column for q, or lacks one for another vertex" % c["q"])
     for k, sv in enumerate(c.get("series", [])):
         ex = [c["D"][v] - sum(L[v][w] * sv[w] for w in range(n)) for v in range(n)]
         if o["series"][k] != ex: why.append("apply #%d on the same Laplacian object, s=%s: %s, D - L*s = %s" % (k + 2, sv, o["series"][k], ex)); break
